@@ -350,6 +350,12 @@ fn burst_faults(rng: &mut Rng, s: &SizeInfo, budget: Option<usize>, faults: &mut
 /// Errors inside the radius whose values are solved so that the syndromes take a
 /// "statistically rare" shape: leading zeros, or a singular leading Hankel minor.
 fn cancel_faults(ctx: &Ctx, rng: &mut Rng, s: &SizeInfo, faults: &mut Vec<Fault>) -> bool {
+    cancel_faults_w(ctx, rng, s, faults, false)
+}
+
+/// `beyond`: the same tuning of values, but with t+1 .. t+4 errors (outside the radius): words that are
+/// uncorrectable AND drive the locator search through its rare branches.
+fn cancel_faults_w(ctx: &Ctx, rng: &mut Rng, s: &SizeInfo, faults: &mut Vec<Fault>, beyond: bool) -> bool {
     let t = s.t();
     if t < 2 || !ctx.gf_ok[s.idx] {
         return false;
@@ -360,7 +366,9 @@ fn cancel_faults(ctx: &Ctx, rng: &mut Rng, s: &SizeInfo, faults: &mut Vec<Fault>
     let nb = pos.len();
     let mode = rng.below(3);
     // the linear mode is cheap for any weight (favour full weight t); the determinant search is kept small
-    let e = if mode == 0 {
+    let e = if beyond {
+        rng.range(t + 1, (t + 4).min(s.k))
+    } else if mode == 0 {
         if rng.chance(1, 2) { t } else { rng.range(2, t) }
     } else {
         rng.range(2, t.min(8))
@@ -389,7 +397,13 @@ fn cancel_faults(ctx: &Ctx, rng: &mut Rng, s: &SizeInfo, faults: &mut Vec<Fault>
     let mut ys = vec![0u8; e];
     if mode == 0 {
         // S_1..S_m = 0, m < e: fix the last e-m values, solve the first m
-        let m = if rng.chance(2, 5) { e - 1 } else { rng.range(1, e - 1) };
+        let m = if beyond {
+            rng.range(1, (e - 1).min(s.k - 1))
+        } else if rng.chance(2, 5) {
+            e - 1
+        } else {
+            rng.range(1, e - 1)
+        };
         for y in ys.iter_mut().skip(m) {
             *y = rng.nonzero_byte();
         }
@@ -411,7 +425,13 @@ fn cancel_faults(ctx: &Ctx, rng: &mut Rng, s: &SizeInfo, faults: &mut Vec<Fault>
         }
     } else {
         // singular leading minor H_v (1 <= v < e): search the last value
-        let v = if mode == 1 { rng.range(1, (e - 1).min(3)) } else { rng.range(1, e - 1) };
+        let v = if beyond {
+            rng.range(1, (e - 1).min(t - 1).min(6))
+        } else if mode == 1 {
+            rng.range(1, (e - 1).min(3))
+        } else {
+            rng.range(1, e - 1)
+        };
         for y in ys.iter_mut().take(e - 1) {
             *y = rng.nonzero_byte();
         }
@@ -1228,6 +1248,11 @@ fn beyond_radius_faults(ctx: &Ctx, rng: &mut Rng, s: &SizeInfo, faults: &mut Vec
             weighted_cw_faults(rng, s, &w, faults);
         }
         _ => {
+            if rng.chance(1, 2) {
+                // uncorrectable, with values tuned for leading-zero syndromes / a singular leading minor
+                cancel_faults_w(ctx, rng, s, faults, true);
+                return;
+            }
             cancel_faults(ctx, rng, s, faults);
             // push it over the radius with a few more
             let b = rng.below(s.blocks);
